@@ -204,8 +204,276 @@ def gen_ruler_shape() -> dict:
     return {"compile": comp, "getRules": get}
 
 
+# --------------------------------------------------------------------------
+# regular expressions: every compiled pattern of the library, parsed by CPython's own
+# parser; every single-character construct (literal, class, dot, category; with
+# IGNORECASE / DOTALL in force) is replaced by the exact set of code points CPython
+# matches for it, obtained by running the compiled item over all code points.
+
+_ALL_CHARS = None
+
+
+def _all_chars():
+    global _ALL_CHARS
+    if _ALL_CHARS is None:
+        _ALL_CHARS = "".join(map(chr, range(0x110000)))
+    return _ALL_CHARS
+
+
+_ITEM_CACHE: dict = {}
+_DISK = Path("/verif/.gen_cache.json")
+
+
+def _load_disk_cache():
+    # pure function of (CPython version, item, flags): safe to keep between runs
+    if _ITEM_CACHE:
+        return
+    try:
+        d = json.loads(_DISK.read_text())
+        if d.get("python") == sys.version:
+            for k, v in d["items"].items():
+                _ITEM_CACHE[k] = v
+    except Exception:  # noqa: BLE001
+        pass
+
+
+def _save_disk_cache():
+    try:
+        _DISK.write_text(json.dumps({"python": sys.version, "items": _ITEM_CACHE}))
+    except Exception:  # noqa: BLE001
+        pass
+
+
+def _char_set(state, item, flags):
+    """sorted list of (lo, hi) ranges of the code points matched by a one-character item"""
+    import re
+    _load_disk_cache()
+    key = repr((repr(item), int(flags & (re.I | re.S | re.A))))
+    if key in _ITEM_CACHE:
+        return _ITEM_CACHE[key]
+    st = re._parser.State()
+    st.flags = flags
+    st.str = ""
+    sp = re._parser.SubPattern(st, [item])
+    try:
+        comp = re._compiler.compile(sp, flags)
+    except Exception as e:  # noqa: BLE001
+        raise GenError(f"regex item {item!r}: cannot compile in isolation: {e}")
+    cps = [ord(c) for c in comp.findall(_all_chars())]
+    ranges = []
+    for c in cps:
+        if ranges and ranges[-1][1] == c - 1:
+            ranges[-1][1] = c
+        else:
+            ranges.append([c, c])
+    _ITEM_CACHE[key] = ranges
+    return ranges
+
+
+def _re_term(parsed, flags, name):
+    import re
+    from re import _constants as C
+    P = re._parser
+
+    def cls(ranges):
+        items = "; ".join(f"CChar {a}" if a == b else f"CRange {a} {b}" for a, b in ranges)
+        return f"(RIn false [{items}])"
+
+    def seq(items):
+        if not items:
+            return "REps"
+        out = items[-1]
+        for x in reversed(items[:-1]):
+            out = f"(RCat {x} {out})"
+        return out
+
+    def alt(items):
+        if not items:
+            return "RFail"
+        out = items[-1]
+        for x in reversed(items[:-1]):
+            out = f"(RAlt {x} {out})"
+        return out
+
+    def go(sp):
+        out = []
+        for op, av in sp:
+            if op in (C.LITERAL, C.NOT_LITERAL, C.IN, C.ANY):
+                out.append(cls(_char_set(parsed.state, (op, av), flags)))
+            elif op is C.BRANCH:
+                out.append(alt([go(x) for x in av[1]]))
+            elif op is C.SUBPATTERN:
+                g, add, dele, p = av
+                if add or dele:
+                    raise GenError(f"regex {name}: inline flag groups are not supported")
+                body = go(p)
+                out.append(body if g is None else f"(RGroup {g}%nat {body})")
+            elif op in (C.MAX_REPEAT, C.MIN_REPEAT):
+                mn, mx, p = av
+                mxs = "None" if mx == C.MAXREPEAT else f"(Some {mx}%nat)"
+                if mn > 5000 or (mx != C.MAXREPEAT and mx > 5000):
+                    raise GenError(f"regex {name}: repeat bound too large")
+                out.append(f"(RRep {mn}%nat {mxs} {'true' if op is C.MAX_REPEAT else 'false'} {go(p)})")
+            elif op is C.AT:
+                ml = "true" if flags & re.M else "false"
+                if av is C.AT_BEGINNING:
+                    out.append(f"(RBol {ml})")
+                elif av is C.AT_END:
+                    out.append(f"(REol {ml})")
+                elif av is C.AT_BEGINNING_STRING:
+                    out.append("(RBol false)")
+                else:
+                    raise GenError(f"regex {name}: anchor {av} not supported")
+            elif op in (C.ASSERT, C.ASSERT_NOT):
+                d, p = av
+                if d != 1:
+                    raise GenError(f"regex {name}: look-behind not supported")
+                out.append(f"(RLook {'true' if op is C.ASSERT_NOT else 'false'} {go(p)})")
+            else:
+                raise GenError(f"regex {name}: construct {op} not supported")
+        return seq(out)
+
+    return go(parsed)
+
+
+def _safe(txt: str) -> str:
+    """pattern text made harmless for a Coq comment"""
+    return "".join(c if (c.isalnum() and c.isascii()) or c in " _-+.,:;=<>[]{}|^$?!/#%&@~" else "~" for c in txt[:100])
+
+
+def gen_regexes() -> dict:
+    import re
+    import pkgutil
+    import markdown_it
+
+    found = {}
+    for m in pkgutil.walk_packages(markdown_it.__path__, "markdown_it."):
+        if m.name.startswith("markdown_it.cli"):
+            continue
+        try:
+            mod = importlib.import_module(m.name)
+        except ModuleNotFoundError:
+            continue
+        short = m.name.split(".")[-1]
+        for attr, val in sorted(vars(mod).items()):
+            if isinstance(val, re.Pattern):
+                if getattr(mod, "__name__", "") != m.name:
+                    continue
+                found.setdefault((val.pattern, val.flags), []).append((short, attr, val))
+            elif isinstance(val, (list, tuple)) and val and all(
+                    isinstance(x, tuple) and any(isinstance(y, re.Pattern) for y in x) for x in val):
+                found.setdefault(("SEQ", short, attr), []).append((short, attr, val))
+    lines = [HEADER, "From MD Require Import Base.Regex.\n\n"]
+    emitted = {}
+    names = {}
+
+    def emit(ident, pat):
+        parsed = re._parser.parse(pat.pattern, pat.flags)
+        term = _re_term(parsed, pat.flags, ident)
+        return term
+
+    for key, users in sorted(found.items(), key=lambda kv: str(kv[0])):
+        if key[0] == "SEQ":
+            short, attr, val = users[0]
+            ident = f"re_{short}_{attr}"
+            rows = []
+            for row in val:
+                if not (len(row) == 3 and isinstance(row[0], re.Pattern) and isinstance(row[1], re.Pattern) and isinstance(row[2], bool)):
+                    raise GenError(f"{short}.{attr}: unexpected row shape")
+                rows.append(f"  ({emit(ident, row[0])},\n   {emit(ident, row[1])}, {'true' if row[2] else 'false'})")
+            lines.append(f"Definition {ident} : list (re * re * bool) := [\n" + ";\n".join(rows) + "\n].\n\n")
+            names[ident] = [r[0].pattern for r in val]
+            continue
+        for short, attr, val in users:
+            ident = f"re_{short}_{attr}"
+            if ident in names:
+                continue
+            # defined where? imported names appear in several modules: keep the defining module only
+            names[ident] = val.pattern
+            lines.append(f"(* {short}.{attr} = {_safe(val.pattern)} flags={int(val.flags)} *)\n")
+            lines.append(f"Definition {ident} : re := {emit(ident, val)}.\n\n")
+    # patterns written inline in calls: re.sub(r"...", ...) with a constant pattern
+    for path in sorted((REPO / "markdown_it").rglob("*.py")):
+        if "cli" in path.parts:
+            continue
+        tree = ast.parse(path.read_text())
+        k = 0
+        for node in ast.walk(tree):
+            if (isinstance(node, ast.Call) and isinstance(node.func, ast.Attribute) and isinstance(node.func.value, ast.Name)
+                    and node.func.value.id == "re" and node.func.attr in ("sub", "search", "match", "fullmatch", "split", "findall")):
+                a0 = node.args[0] if node.args else None
+                if not (isinstance(a0, ast.Constant) and isinstance(a0.value, str)):
+                    raise GenError(f"{path.name}: re.{node.func.attr} with a non-constant pattern")
+                fl = 0
+                for kw in node.keywords:
+                    if kw.arg == "flags":
+                        try:
+                            fl = int(eval(compile(ast.Expression(kw.value), "<flags>", "eval"), {"re": re}))
+                        except Exception as e:  # noqa: BLE001
+                            raise GenError(f"{path.name}: cannot evaluate flags: {e}")
+                ident = f"re_{path.stem}_inline{k}"
+                k += 1
+                pat = re.compile(a0.value, fl)
+                names[ident] = a0.value
+                lines.append(f"(* {path.name}: re.{node.func.attr} {_safe(a0.value)} *)\n")
+                lines.append(f"Definition {ident} : re := {emit(ident, pat)}.\n\n")
+    write_if_changed(GEN / "Regexes.v", "".join(lines))
+    _save_disk_cache()
+    return names
+
+
+# --------------------------------------------------------------------------
+# character tables and the entity map
+
+
+def _zlist(xs):
+    return "[" + "; ".join(str(int(x)) for x in xs) + "]"
+
+
+def gen_tables() -> dict:
+    utils = importlib.import_module("markdown_it.common.utils")
+    ents = importlib.import_module("markdown_it.common.entities").entities
+    text_rule = importlib.import_module("markdown_it.rules_inline.text")
+    escape_rule = importlib.import_module("markdown_it.rules_inline.escape")
+    hb = importlib.import_module("markdown_it.common.html_blocks")
+    mdurl_enc = importlib.import_module("mdurl._encode")
+    nurl = importlib.import_module("markdown_it.common.normalize_url")
+    lines = [HEADER]
+
+    def need(mod, name, typ):
+        v = getattr(mod, name, None)
+        if not isinstance(v, typ):
+            raise GenError(f"{mod.__name__}.{name} is missing or not a {typ}")
+        return v
+
+    ws = sorted(need(utils, "MD_WHITESPACE", (set, frozenset)))
+    punct = sorted(need(utils, "MD_ASCII_PUNCT", (set, frozenset)))
+    term = need(text_rule, "_TerminatorChars", (set, frozenset))
+    term = sorted(ord(c) if isinstance(c, str) else int(c) for c in term)
+    esc = need(escape_rule, "_ESCAPED", (list, tuple, set, frozenset))
+    esc = sorted(ord(c) if isinstance(c, str) else int(c) for c in esc)
+    pyspace = [c for c in range(0x110000) if chr(c).isspace()]
+    lines.append(f"Definition md_whitespace : list Z := {_zlist(ws)}.\n")
+    lines.append(f"Definition md_ascii_punct : list Z := {_zlist(punct)}.\n")
+    lines.append(f"Definition text_terminators : list Z := {_zlist(term)}.\n")
+    lines.append(f"Definition escaped_table : list Z := {_zlist(esc)}.\n")
+    lines.append("(* str.isspace() == the characters str.strip() removes == re \\s, asked of CPython *)\n")
+    lines.append(f"Definition py_space : list Z := {_zlist(pyspace)}.\n")
+    lines.append(f"Definition html_block_names : list str := {coq_strs(list(need(hb, 'block_names', list)))}.\n")
+    lines.append(f"Definition encode_default_chars : str := {coq_str(need(mdurl_enc, 'ENCODE_DEFAULT_CHARS', str))}.\n")
+    lines.append(f"Definition recode_hostname_for : list str := {coq_strs(list(need(nurl, 'RECODE_HOSTNAME_FOR', tuple)))}.\n")
+    write_if_changed(GEN / "Tables.v", "".join(lines))
+    # entities: name -> characters
+    el = [HEADER, "Definition entity_table : list (str * str) := [\n"]
+    el.append(";\n".join(f"  ({coq_str(k)}, {coq_str(v)})" for k, v in ents.items()))
+    el.append("\n].\n")
+    write_if_changed(GEN / "Entities.v", "".join(el))
+    return {"entities": len(ents), "terminators": term}
+
+
 def gen_all() -> dict:
-    return {"rules": gen_rules(), "presets": gen_presets(), "ruler_shape": gen_ruler_shape()}
+    return {"rules": gen_rules(), "presets": gen_presets(), "ruler_shape": gen_ruler_shape(),
+            "regexes": gen_regexes(), "tables": gen_tables()}
 
 
 if __name__ == "__main__":
